@@ -16,6 +16,9 @@ pub mod perm;
 pub mod fl;
 pub mod conv;
 pub mod core;
+pub mod scope;
+pub mod typing;
+pub mod parse;
 
 use crate::builtin::optional::XOptional;
 use crate::builtin::sequence::XSequence;
